@@ -858,6 +858,53 @@ where
             v.remove_prefix("X-VERIF-FORMER2-");
             run_with_body(req, kind, cfg, prov, &v)
         }
+        6 => {
+            // a container edited *in place*: configured with a former name where the last wanted name of each list belongs,
+            // used for a validation of this very request, then the former name taken out and the wanted one put in — as many
+            // entries as before, very likely in the same allocation — then used for the validation that counts. It is equal to
+            // a freshly built one, so it must decide like one.
+            let mut v = VecSignedHeaderRequirements::default();
+            let n = (r.always.len(), r.if_req.len(), r.prefixes.len());
+            for (k, h) in r.always.iter().enumerate() {
+                v.add_always_present(if k + 1 == n.0 {
+                    "X-Verif-Former-A"
+                } else {
+                    h
+                });
+            }
+            for (k, h) in r.if_req.iter().enumerate() {
+                v.add_if_in_request(if k + 1 == n.1 {
+                    "X-Verif-Former-B"
+                } else {
+                    h
+                });
+            }
+            for (k, h) in r.prefixes.iter().enumerate() {
+                v.add_prefix(if k + 1 == n.2 {
+                    "X-Verif-Former-"
+                } else {
+                    h
+                });
+            }
+            {
+                let mut warm = Prov::new(Script::derive("warm-up"));
+                warm.contract_panics = false;
+                let _ = run_with_body(req.clone(), kind, cfg, &mut warm, &v);
+            }
+            if let Some(h) = r.always.last() {
+                v.remove_always_present("x-verif-former-a");
+                v.add_always_present(h);
+            }
+            if let Some(h) = r.if_req.last() {
+                v.remove_if_in_request("X-VERIF-FORMER-B");
+                v.add_if_in_request(h);
+            }
+            if let Some(h) = r.prefixes.last() {
+                v.remove_prefix("x-verif-former-");
+                v.add_prefix(h);
+            }
+            run_with_body(req, kind, cfg, prov, &v)
+        }
         _ => {
             let (a, i, p) = (cows(&r.always), cows(&r.if_req), cows(&r.prefixes));
             let s = SliceSignedHeaderRequirements::new(&a, &i, &p);
